@@ -775,6 +775,9 @@ class UltrasphericalHelper(ChebychevHelper):
         xp = self.xp
         N = self.N
         l = p
+        if N <= l:
+            # derivative order exceeds the polynomial degree: zero operator (sp.diags would infer a (l, l) shape)
+            return sp.csc_matrix((N, N))
         return 2 ** (l - 1) * factorial(l - 1) * sp.diags(xp.arange(N - l) + l, offsets=l) / self.lin_trf_fac**p
 
     def get_S(self, lmbda):
